@@ -1,12 +1,12 @@
 (** C14 - Host-port mappings are set up, held and removed completely.
-    Property theorems only; proofs are in Proofs/NetfilterP.v and Proofs/PortMapP.v.
+    Property theorems only; proofs are in Proofs/NetfilterP.v, Proofs/PortMapP.v and Proofs/PortDaemonP.v.
     The NAT table is any association list of chains (arbitrary foreign chains and rules, other pods'
     KUBE-HP-* chains); the chain-name hash is the Section variable [cname] and the theorems state what
     they need of it (distinct names carrying the KUBE-HP- prefix, fresh for a new pod). *)
 From Coq Require Import List NArith Bool.
 From Galaxy.Base Require Import Strs.
-From Galaxy.Model Require Import Netfilter PortMap.
-From Galaxy.Proofs Require Import NetfilterP PortMapP.
+From Galaxy.Model Require Import Netfilter PortMap PortDaemon.
+From Galaxy.Proofs Require Import NetfilterP PortMapP PortDaemonP.
 Import ListNotations.
 Open Scope N_scope.
 
@@ -38,10 +38,96 @@ Theorem setup_all_idem : forall (t t' : table) (ps : list port),
   sync_pre cname ps t -> setup_all cname ps t = (t', true) ->
   exists t'', setup_all cname ps t' = (t'', true) /\ forall c, tlookup c t'' = tlookup c t'.
 Proof. exact (setup_all_idem_l cname). Qed.
+
+(** CleanPortMapping cannot fail for lack of the ports' chains (F17): whatever the ports' chains hold,
+    and whether they exist or not, it is accepted as soon as nothing that stays - other than
+    KUBE-HOSTPORTS, through the ports' own jump rules - jumps to them; afterwards the chains are gone,
+    KUBE-HOSTPORTS has lost exactly the rules that jumped to them, everything else is untouched *)
+Theorem clean_total : forall (t : table) (ps : list port),
+  clean_pre cname ps t -> exists t', clean cname ps t = (t', true) /\ clean_post cname ps t t'.
+Proof. exact (clean_total_l cname). Qed.
+
+(** in particular when nothing at all jumps to the ports' chains, e.g. when they do not exist *)
+Theorem clean_total_unreferenced : forall (t : table) (ps : list port),
+  NoDup (map fst t) -> NoDup (map cname ps) ->
+  (forall p, In p ps -> is_builtin (cname p) = false /\ cname p <> hostports /\ proto_plain p) ->
+  (forall p, In p ps -> referenced (cname p) t = false) ->
+  exists t', clean cname ps t = (t', true) /\ clean_post cname ps t t'.
+Proof. exact (clean_unreferenced_l cname). Qed.
+
+(** ---- the daemon: state file, tear-down (CNI DEL, garbage collector, roll-back of a failed ADD) with a
+    transient failure of one iptables call (Model/PortDaemon.v) *)
+
+(** a CleanPortMapping that failed at any call is completed by the next fault-free one: it is accepted
+    and ends in the very table the fault-free clean-up of the original table gives *)
+Theorem cleanup_retry_completes : forall (ps : list port) (t : table) (k : nat) (t1 t2 : table),
+  clean_f cname ps t (Some k) = (t1, false) -> clean cname ps t = (t2, true) ->
+  exists t3, clean cname ps t1 = (t3, true) /\ forall c, tlookup c t3 = tlookup c t2.
+Proof. exact (clean_resumes cname). Qed.
+
+(** a tear-down that reports success has run a complete fault-free CleanPortMapping on the ports of the
+    state file and has removed the file *)
+Theorem teardown_success_is_complete : forall (cid : str) (f : option nat) (s s' : dstate),
+  d_clean cname cid f s = (s', true) ->
+  (d_lookup cid (d_files s') = None \/ d_lookup cid (d_files s) = Some []) /\
+  forall ps, d_lookup cid (d_files s) = Some ps -> ps <> [] ->
+    exists t2, clean cname ps (d_table s) = (t2, true) /\ d_table s' = t2 /\
+      d_files s' = d_remove cid (d_files s).
+Proof. exact (d_clean_ok_complete cname). Qed.
+
+(** a tear-down that failed keeps the state files *)
+Theorem failed_teardown_keeps_state_file : forall (cid : str) (f : option nat) (s s' : dstate),
+  d_clean cname cid f s = (s', false) -> d_files s' = d_files s.
+Proof. exact (d_clean_failed_keeps_file cname). Qed.
+
+(** after a tear-down that failed at call k - from whatever partial state it left - the next fault-free
+    tear-down succeeds, removes the file and leaves the table of the fault-free tear-down *)
+Theorem teardown_retry_completes : forall (cid : str) (ps : list port) (k : nat) (s s1 : dstate) (t2 : table),
+  d_lookup cid (d_files s) = Some ps -> ps <> [] ->
+  clean cname ps (d_table s) = (t2, true) ->
+  d_clean cname cid (Some k) s = (s1, false) ->
+  exists s2, d_clean cname cid None s1 = (s2, true) /\ d_lookup cid (d_files s2) = None /\
+    d_files s2 = d_remove cid (d_files s) /\ d_table s2 = t2.
+Proof. exact (d_teardown_retry cname). Qed.
+
+(** CNI ADD then DEL of a container with new ports: the set-up and the tear-down are accepted and the state
+    is as before (no file of the container, the other files, every chain but KUBE-MARK-MASQ); and when
+    the tear-down fails at any call, the file is kept and the retry ends in such a state *)
+Theorem setup_then_teardown_with_retry : forall (cid : str) (ps : list port) (s : dstate),
+  has_chain hostports (d_table s) = true ->
+  NoDup (map cname ps) ->
+  (forall p, In p ps -> proto_plain p) ->
+  (forall p, In p ps -> fresh_chain (d_table s) (cname p)) ->
+  d_lookup cid (d_files s) = None -> ps <> [] ->
+  exists s1 s2, d_setup cname cid ps None s = (s1, true) /\ d_clean cname cid None s1 = (s2, true) /\
+    back_to_start cid s s2 /\
+    forall k s1', d_clean cname cid (Some k) s1 = (s1', false) ->
+      d_files s1' = d_files s1 /\
+      exists s2', d_clean cname cid None s1' = (s2', true) /\ back_to_start cid s s2'.
+Proof. exact (d_setup_then_teardown cname). Qed.
+
+(** a set-up that failed - the batch or any EnsureRule - is rolled back completely by the clean-up the
+    daemon runs at once (before the repair of F17 a failed batch left the file for ever) *)
+Theorem failed_setup_leaves_nothing : forall (cid : str) (ps : list port) (s : dstate) (k : nat) (s' : dstate),
+  has_chain hostports (d_table s) = true ->
+  NoDup (map cname ps) ->
+  (forall p, In p ps -> proto_plain p) ->
+  (forall p, In p ps -> fresh_chain (d_table s) (cname p)) ->
+  d_lookup cid (d_files s) = None -> ps <> [] ->
+  d_setup cname cid ps (Some k) s = (s', false) -> back_to_start cid s s'.
+Proof. exact (d_failed_setup_leaves_nothing cname). Qed.
 End C14.
 Print Assumptions setup_clean_inverse.
 Print Assumptions setup_all_exact.
 Print Assumptions setup_all_idem.
+Print Assumptions clean_total.
+Print Assumptions clean_total_unreferenced.
+Print Assumptions cleanup_retry_completes.
+Print Assumptions teardown_success_is_complete.
+Print Assumptions failed_teardown_keeps_state_file.
+Print Assumptions teardown_retry_completes.
+Print Assumptions setup_then_teardown_with_retry.
+Print Assumptions failed_setup_leaves_nothing.
 
 (** in every history of open / close calls (and binds / releases by other processes): all bound
     sockets - the ports handed out, including kernel-chosen ones, and everyone else's - are pairwise
@@ -69,3 +155,33 @@ Example c14_nonvacuous : sync_pre example_cname example_ports example_table /\
   (forall p, In p example_new_ports -> fresh_chain example_table (example_cname p)) /\
   List.length example_table = 8%nat.
 Proof. exact c14_example_l. Qed.
+
+(** F17: on a table without the port's chain the old CleanPortMapping returns an error and changes nothing
+    (so every retry fails too); the repaired one is accepted and leaves the table as it is *)
+Example teardown_refuted_missing_chain_old :
+  clean_old example_cname example_new_ports dex_table = (dex_table, false) /\
+  exists t', clean example_cname example_new_ports dex_table = (t', true) /\ table_eqb t' dex_table = true.
+Proof. exact clean_old_refuted_l. Qed.
+Print Assumptions teardown_refuted_missing_chain_old.
+
+(** the daemon theorems' hypotheses are met and their scenario runs on a concrete state: two ports of one
+    pod are set up; a tear-down whose third call (the second DeleteRule) fails keeps the file and the second
+    jump; the next tear-down removes the file and gives the table back, but for KUBE-MARK-MASQ *)
+Example daemon_teardown_nonvacuous :
+  let r1 := d_setup example_cname dex_cid dex_ports None dex_state in
+  let r2 := d_clean example_cname dex_cid (Some 2%nat) (fst r1) in
+  let r3 := d_clean example_cname dex_cid None (fst r2) in
+  (has_chain hostports dex_table = true /\ NoDup (map example_cname dex_ports) /\
+   (forall p, In p dex_ports -> proto_plain p) /\
+   (forall p, In p dex_ports -> fresh_chain dex_table (example_cname p)) /\
+   d_lookup dex_cid (d_files dex_state) = None) /\
+  snd r1 = true /\ d_lookup dex_cid (d_files (fst r1)) = Some dex_ports /\
+  tlookup hostports (d_table (fst r1)) = Some (map (jump_rule example_cname) dex_ports) /\
+  snd r2 = false /\ d_files (fst r2) = d_files (fst r1) /\
+  tlookup hostports (d_table (fst r2)) = Some (map (jump_rule example_cname) (tl dex_ports)) /\
+  (forall p, In p dex_ports -> tlookup (example_cname p) (d_table (fst r2)) = Some []) /\
+  snd r3 = true /\ d_files (fst r3) = d_files dex_state /\
+  table_eqb (tremove markmasq (d_table (fst r3))) dex_table = true /\
+  tlookup markmasq (d_table (fst r3)) = Some [mark_rule].
+Proof. exact daemon_example_l. Qed.
+Print Assumptions daemon_teardown_nonvacuous.
